@@ -35,6 +35,17 @@ def reprStep (acc : List MLine × MLine × Bound) (node : ANode) : List MLine ×
     let startB := if cur.nodes.isEmpty && isBlockElem node then startB.stripSpace else startB
     (lines, { cur with nodes := cur.nodes ++ [node] }, startB)
 
+mutual
+/-- `ends_with_linebreak`: the last token of the node is a linebreak, at any depth. -/
+def endsWithLinebreak : ANode → Bool
+  | .leaf _ _ _ => false
+  | .inner _ cs _ => endsWithLinebreakL cs
+def endsWithLinebreakL : List ANode → Bool
+  | [] => false
+  | [a] => a.kind == .linebreak || endsWithLinebreak a
+  | _ :: rest => endsWithLinebreakL rest
+end
+
 /-- "Remove trailing spaces" loop on the last line. -/
 def stripTrailing : Nat → List ANode → Bound → List ANode × Bound
   | 0, nodes, endB => (nodes, endB)
@@ -43,7 +54,8 @@ def stripTrailing : Nat → List ANode → Bound → List ANode × Bound
     | none => (nodes, endB)
     | some l =>
       if l.kind == .space then stripTrailing fuel nodes.dropLast (Bound.fromSpace l.text)
-      else (nodes, if isBlockElem l then endB.stripSpace else endB)
+      -- a trailing `\` of the item must not meet the closing bracket
+      else (nodes, if isBlockElem l && !endsWithLinebreak l then endB.stripSpace else endB)
 
 /-- "Check boundary through comments". -/
 def throughComments (line : Option MLine) (fromEnd : Bool) (b : Bound) : Bound :=
